@@ -9,6 +9,8 @@ import (
 
 const symxBase = 1600000000
 
+var symxStepNames = []string{"k0", "k1", "k2", "k3", "k4", "k5", "k6", "k7"}
+
 type symxEntry struct {
 	live    bool
 	want    byte
@@ -23,11 +25,11 @@ func symxStored(kind int64, id int32) packet.Packet {
 	case 0:
 		return &packet.Publish{Header: &packet.Header{Qos: 1}, MessageId: id}
 	case 1:
-		return &packet.Publish{Header: &packet.Header{Qos: 2}, MessageId: id}
+		return &packet.PubRel{Header: &packet.Header{}, MessageId: id}
 	case 2:
-		return &packet.PubRec{Header: &packet.Header{}, MessageId: id}
+		return &packet.Publish{Header: &packet.Header{Qos: 2}, MessageId: id}
 	}
-	return &packet.PubRel{Header: &packet.Header{}, MessageId: id}
+	return &packet.PubRec{Header: &packet.Header{}, MessageId: id}
 }
 
 func symxWant(kind int64) byte {
@@ -35,11 +37,11 @@ func symxWant(kind int64) byte {
 	case 0:
 		return packet.PUBACK
 	case 1:
-		return packet.PUBREC
+		return packet.PUBCOMP
 	case 2:
-		return packet.PUBREL
+		return packet.PUBREC
 	}
-	return packet.PUBCOMP
+	return packet.PUBREL
 }
 
 func symxAck(kind int64, id int32) packet.Packet {
@@ -47,36 +49,44 @@ func symxAck(kind int64, id int32) packet.Packet {
 	case 0:
 		return &packet.PubAck{Header: &packet.Header{}, MessageId: id}
 	case 1:
-		return &packet.PubRec{Header: &packet.Header{}, MessageId: id}
+		return &packet.PubComp{Header: &packet.Header{}, MessageId: id}
 	case 2:
-		return &packet.PubRel{Header: &packet.Header{}, MessageId: id}
+		return &packet.PubRec{Header: &packet.Header{}, MessageId: id}
 	}
-	return &packet.PubComp{Header: &packet.Header{}, MessageId: id}
+	return &packet.PubRel{Header: &packet.Header{}, MessageId: id}
 }
 
-// symxC04A: register / acknowledge / sweep sequences over 2 sessions x 2 identifiers with
+// symxC04A: register / acknowledge / sweep sequences over sessions x identifiers with
 // symbolic deadlines and sweep instants, against a reference table.
+// keys: 0=(s,1) 1=(s,2) 2=(t,1); key 3 in an acknowledge = unknown identifier.
 func symxC04A() {
 	ops := rt.Param("ops", 3)
+	kinds := int64(rt.Param("kinds", 2))
 	q := NewQueue()
-	prefixes := []string{"s", "t"}
-	ids := []int32{1, 2}
-	var ref [4]symxEntry
-	check := func(snapshot [4]symxEntry, label string) {
+	prefixes := []string{"s", "s", "t"}
+	ids := []int32{1, 2, 1}
+	var ref [3]symxEntry
+	same := func(snapshot [3]symxEntry) bool {
+		ok := true
 		for k := range ref {
-			rt.Assert(ref[k].acked == snapshot[k].acked && ref[k].expired == snapshot[k].expired, label)
+			ok = ok && ref[k].acked == snapshot[k].acked && ref[k].expired == snapshot[k].expired
 		}
+		return ok
 	}
 	for step := 0; step < ops; step++ {
 		kind := rt.Int("kind", 0, 2)
+		if fixed := rt.Param(symxStepNames[step], -1); fixed >= 0 {
+			// bounded script shape: the kind of this step is fixed by the check configuration
+			rt.Assume(kind == int64(fixed%10) || (fixed >= 10 && kind == int64(fixed/10-1)))
+		}
 		before := ref
 		switch kind {
 		case 0: // register
-			k := int(rt.Int("key", 0, 3))
-			pk := rt.Int("stored", 0, 3)
-			sec, nsec := rt.Int("dsec", 0, 3), rt.Int("dnsec", 0, 999999999)
+			k := int(rt.Int("key", 0, 2))
+			pk := rt.Int("stored", 0, kinds-1)
+			sec, nsec := rt.Int("dsec", 0, 2), rt.Int("dnsec", 0, 999999999)
 			kk := k
-			err := q.Insert(prefixes[k/2], symxStored(pk, ids[k%2]), time.Unix(symxBase+sec, nsec), func(expired bool, stored, received packet.Packet) {
+			err := q.Insert(prefixes[k], symxStored(pk, ids[k]), time.Unix(symxBase+sec, nsec), func(expired bool, stored, received packet.Packet) {
 				if expired {
 					ref[kk].expired++
 				} else {
@@ -89,30 +99,29 @@ func symxC04A() {
 				rt.Assert(err == nil, "C04.register_accepted")
 				ref[k].live, ref[k].want, ref[k].sec, ref[k].nsec = true, symxWant(pk), sec, nsec
 			}
-			check(before, "C04.register_fires_nothing")
+			rt.Assert(same(before), "C04.register_fires_nothing")
 		case 1: // acknowledge (possibly wrong type, possibly unknown identifier)
-			k := int(rt.Int("key", 0, 4))
-			at := rt.Int("acktype", 0, 3)
-			var err error
-			if k == 4 {
-				err = q.Ack("s", symxAck(at, 9))
+			k := int(rt.Int("key", 0, 3))
+			at := rt.Int("acktype", 0, kinds-1)
+			if k == 3 {
+				err := q.Ack("s", symxAck(at, 9))
 				rt.Assert(err != nil, "C04.unknown_id_rejected")
-				check(before, "C04.unknown_id_fires_nothing")
+				rt.Assert(same(before), "C04.unknown_id_fires_nothing")
 				break
 			}
-			err = q.Ack(prefixes[k/2], symxAck(at, ids[k%2]))
+			err := q.Ack(prefixes[k], symxAck(at, ids[k]))
 			exp := before
 			if ref[k].live && symxAck(at, 0).Type() == ref[k].want {
 				exp[k].acked++
 				rt.Assert(err == nil, "C04.expected_ack_accepted")
-				check(exp, "C04.ack_resolves_exactly_that_entry")
+				rt.Assert(same(exp), "C04.ack_resolves_exactly_that_entry")
 				ref[k].live = false
 			} else {
 				rt.Assert(err != nil, "C04.unexpected_ack_rejected")
-				check(exp, "C04.unexpected_ack_fires_nothing")
+				rt.Assert(same(exp), "C04.unexpected_ack_fires_nothing")
 			}
 		case 2: // sweep
-			sec, nsec := rt.Int("nsec_s", 0, 5), rt.Int("nsec_n", 0, 999999999)
+			sec, nsec := rt.Int("now_s", 0, 4), rt.Int("now_n", 0, 999999999)
 			q.Expire(time.Unix(symxBase+sec, nsec))
 			for k := range ref {
 				fired := ref[k].expired - before[k].expired
@@ -121,22 +130,18 @@ func symxC04A() {
 					rt.Assert(fired == 0, "C04.resolved_entry_not_fired_again")
 					continue
 				}
-				// d = deadline, n = now. must expire if n >= d + 1s; must not if n <= d - 1s
-				late := sec > ref[k].sec+1 || (sec == ref[k].sec+1 && nsec >= ref[k].nsec)
-				early := sec < ref[k].sec-1 || (sec == ref[k].sec-1 && nsec <= ref[k].nsec)
-				if late {
-					rt.Assert(fired == 1, "C04.expired_at_first_sweep_after_deadline")
-				} else if early {
-					rt.Assert(fired == 0, "C04.not_expired_before_deadline")
-				} else {
-					rt.Assert(fired == 0 || fired == 1, "C04.at_most_once")
-				}
+				// d = deadline, n = now: must expire if n >= d + 1s; must not if n <= d - 1s
+				late := rt.Or(sec > ref[k].sec+1, rt.And(sec == ref[k].sec+1, nsec >= ref[k].nsec))
+				early := rt.Or(sec < ref[k].sec-1, rt.And(sec == ref[k].sec-1, nsec <= ref[k].nsec))
+				rt.Assert(rt.Implies(late, fired == 1), "C04.expired_at_first_sweep_after_deadline")
+				rt.Assert(rt.Implies(early, fired == 0), "C04.not_expired_before_deadline")
+				rt.Assert(fired == 0 || fired == 1, "C04.at_most_once")
 				if fired > 0 {
 					ref[k].live = false
 				}
 			}
 		}
 	}
-	tie := ref[0].live && ref[1].live && ref[0].sec == ref[1].sec && ref[0].nsec == ref[1].nsec
+	tie := rt.And(ref[0].live && ref[1].live, rt.And(ref[0].sec == ref[1].sec, ref[0].nsec == ref[1].nsec))
 	rt.Cover(tie, "C04.two_live_entries_with_equal_deadlines")
 }
